@@ -147,7 +147,7 @@ def run(ctx):
         name = cfg["name"]
         r = res[os.path.join(ctx.gen, name + ".v")]
         tags = V.tagged(r["out"])
-        nob = 1 + (0 if cfg["leaks"] else 1) + (2 if cfg["order2"] else 0) + (3 if cfg["order3"] else 0)
+        nob = 1 + (0 if cfg["leaky"] else 1) + (2 if cfg["order2"] else 0) + (3 if cfg["order3"] else 0)
         obligations += nob
         bad = []
         fd_states += cfg["fd"]["states"]
@@ -155,9 +155,6 @@ def run(ctx):
         if cfg["unsupported"]:
             V.violation(ctx, "%s uses operations the lowering does not support: %s" % (name, cfg["unsupported"][:3]),
                         {"broken": "translator", "unsupported": cfg["unsupported"]}, found_input=False)
-        if not cfg["leaks"] and not cfg["programs_identical_for_all_sweep_counts"]:
-            V.violation(ctx, "%s: the traced program depends on NDERIV although no f64 value is re-injected" % name,
-                        {"broken": "translator assumption", "config": name}, found_input=False)
         e0 = by_prog(tags, "E0").get("P")
         e1 = by_prog(tags, "E1").get("P")
         e2 = by_prog(tags, "E2").get("P") if cfg["order2"] else []
@@ -202,8 +199,9 @@ def run(ctx):
                     mid3 = [0.5 * (iv_t[0] + iv_t[1]), 0.5 * (iv_v[0] + iv_v[1])]
             if cfg["order2"]:
                 derived_checks(stats, bad, cfg, si, mid1, mid2, mid3)
-        if cfg["leaks"]:
-            leaky.append({"config": name, "reinjected_f64_constants": len(cfg["leaks"])})
+        if cfg["leaky"]:
+            leaky.append({"config": name, "reinjected_f64_constants": len(cfg["leaks"]),
+                          "program_depends_on_sweep_count": not cfg["programs_identical_for_all_sweep_counts"]})
         if bad or r["rc"] != 0:
             if not fd_fail:
                 sctx = V.Ctx(ctx.id + "_search", ctx.tier, ctx.seed + 7919)
